@@ -10,7 +10,7 @@ CLAUSES = {
             'match_index_differs_from_push_index', 'score_differs_from_pattern_score', 'matches_out_of_order', 'more_matches_than_items',
             'item_count_exceeds_processed_items', 'library_panicked', 'streams_mixed_in_one_snapshot', 'return_without_call'},
     # a worker that panics never converges (the run is lost, the lock poisoned for the event loop)
-    'C07': {'quiescent_snapshot_has_stale_pattern', 'quiescent_item_count_differs_from_injected', 'quiescent_matches_differ_from_scratch',
+    'C07': {'quiescent_snapshot_has_stale_pattern', 'quiescent_item_count_differs_from_injected', 'quiescent_matches_differ_from_scratch', 'quiescent_order_differs_from_scratch',
             'library_panicked'},
     'C12': {'snapshot_not_empty_after_restart_clear', 'snapshot_changed_after_restart_before_new_run', 'old_stream_item_in_snapshot_of_new_stream',
             'item_count_includes_old_stream', 'streams_mixed_in_one_snapshot', 'item_appears_twice_after_restart',
